@@ -27,6 +27,23 @@ Oracle on disk (sets of <= 2 types, all spellings, CLI in-process inside a sandb
     files created == type files by the formula (required) + namespace files the model names + support files (allowed);
     nothing else appears, nothing appears outside the output directory, inputs stay untouched; the second root,
     generated into the same directory, refers (#include / import) to exactly the files the first run produced.
+
+The far end of the legal sizes (same oracles; one root namespace `r`, one-line types, really written and parsed)
+    N runs over the boundary series P-1, P, P+1 for every power of two P = 32 .. 512 (31 .. 513):
+      wide      N sibling namespaces r.s000 .. with one type each (N + 1 namespaces)
+      types     N types in the one namespace r.x
+      versions  N versions of the one type r.x.A (major 0..255 x minor 0..2, 0.0 excepted)
+      chain     one chain r.a.a...a of N namespaces for N in the series up to the LONGEST LEGAL full name (255
+                characters = 127 namespaces; 125, 126 added), one type at the bottom (every intermediate namespace
+                empty) or one type at every level
+      chainwide the longest chain + 1..3 sibling namespaces (128, 129, 130 namespaces)
+      grid      a x b namespaces on two levels with 1 + a + a*b = P + 1 namespaces, first level empty or populated
+    Model: target c with the type list ascending and reversed (the two models must agree), the other languages with
+    one order (quick: the seed-selected eighth of the (shape, language) cells, and of `types` / `versions` with 511,
+    512, 513 the seed-selected one; thorough: everything, both orders).
+    Path lookup is asked for every type at the root and at its own namespace, for three types at three more nodes
+    (asking every node for every type is cubic in N).  Disk: nnvg in-process for a fixed list of shapes up to 130
+    namespaces (quick) / every shape (thorough).
 """
 from __future__ import annotations
 
@@ -238,6 +255,16 @@ class Expect:
         self.multi_version = len({(s[0], s[1]) for s in specs}) < len(specs)
         self.multi_ns = len({s[0] for s in specs}) > 1
         self._want: typing.Dict[tuple, typing.Dict[str, typing.Tuple[str, ...]]] = {}
+        # namespace -> its expected child namespaces / the types expected directly in it (both sorted)
+        kids: typing.Dict[tuple, list] = collections.defaultdict(list)
+        for c in self.closure:
+            if len(c) > 1:
+                kids[c[:-1]].append(c)
+        self.kids_of: typing.Dict[tuple, list] = {k: sorted(v_) for k, v_ in kids.items()}
+        nested: typing.Dict[tuple, list] = collections.defaultdict(list)
+        for n, s in self.types.items():
+            nested[tuple(s[0])].append(n)
+        self.nested_in: typing.Dict[tuple, list] = {k: sorted(v_) for k, v_ in nested.items()}
 
     def want_paths(self, out: str, cwd: pathlib.Path) -> typing.Dict[str, typing.Tuple[str, ...]]:
         """type name -> the acceptable paths (one, or two where the file-name token is changed by the stropping)"""
@@ -307,8 +334,13 @@ def check_model(
     cwd: pathlib.Path,
     root_resolved: pathlib.Path,
     root_name: str,
+    light: bool = False,
 ) -> typing.Tuple[typing.List[typing.Tuple[str, str]], tuple]:
-    """Returns (violations as (kind, text), canonical form of the model)."""
+    """Returns (violations as (kind, text), canonical form of the model).
+    light (large trees only): path lookup is asked for every type and namespace at the root, for three types (first,
+    middle, last by name) and every namespace at three more nodes (first, middle, last by name), and at every node
+    for the types expected directly in it - not at every node for everything, which is cubic in the size of the
+    tree."""
     v: typing.List[typing.Tuple[str, str]] = []
     want_path = ex.want_paths(out, cwd)
     by_tid = {tid_of(t): t for t in types}
@@ -373,12 +405,21 @@ def check_model(
 
     # -- links, nested types, path lookup from every node
     canon_ns = []
-    for (node, npath), ident in zip(nodes, idents):
+    ask_all = set(range(len(nodes)))
+    ask_some: typing.Set[int] = set()
+    some_types: typing.List[str] = []
+    if light:
+        by_name = sorted(range(len(nodes)), key=lambda i_: idents[i_])
+        ask_all = {i_ for i_, ident_ in enumerate(idents) if ident_ == (root_name,)}
+        ask_some = ({by_name[0], by_name[len(by_name) // 2], by_name[-1]} if by_name else set()) - ask_all
+        tnames = sorted(by_tid)
+        some_types = list(dict.fromkeys([tnames[0], tnames[len(tnames) // 2], tnames[-1]])) if tnames else []
+    for idx, ((node, npath), ident) in enumerate(zip(nodes, idents)):
         if node.get_root_namespace() is not root_node:
             v.append(("link_root", f"{'.'.join(ident)}.get_root_namespace() is not the root"))
         kids = list(node.get_nested_namespaces())
         kid_ids = [ident_of(k) for k in kids]
-        want_kids = sorted(c for c in ex.closure if len(c) == len(ident) + 1 and c[:-1] == ident)
+        want_kids = ex.kids_of.get(ident, [])
         if sorted(kid_ids) != want_kids:
             v.append(
                 (
@@ -391,7 +432,7 @@ def check_model(
             if getattr(k, "_parent", None) is not node:
                 v.append(("link_parent", f"parent pointer of {'.'.join(kid)} is not {'.'.join(ident)}"))
         nested = [(tid_of(t), p) for t, p in node.get_nested_types()]
-        want_nested = sorted(n for n, s in ex.types.items() if tuple(s[0]) == ident)
+        want_nested = ex.nested_in.get(ident, [])
         if sorted(n for n, _ in nested) != want_nested:
             v.append(
                 (
@@ -404,7 +445,11 @@ def check_model(
         for n, p in nested:
             if n in want_path and (norm(cwd, p) not in want_path[n] or norm(cwd, p) != first_path.get(n, norm(cwd, p))):
                 v.append(("type_path", f"{n} mapped to {p} in get_nested_types(), expected {want_path[n][0]}"))
-        for n, t in by_tid.items():
+        if idx in ask_all:
+            asked = list(by_tid.items())
+        else:
+            asked = [(n_, by_tid[n_]) for n_ in dict.fromkeys(want_nested + (some_types if idx in ask_some else []))]
+        for n, t in asked:
             try:
                 p = node.find_output_path_for_type(t)
             except Exception as e:  # pylint: disable=broad-except
@@ -414,7 +459,7 @@ def check_model(
                 continue
             if norm(cwd, p) not in want_path[n] or norm(cwd, p) != first_path.get(n, norm(cwd, p)):
                 v.append(("lookup_path", f"find_output_path_for_type({n}) at {'.'.join(ident)} gives {p}"))
-        for (other, opath), oid in zip(nodes, idents):
+        for (other, opath), oid in zip(nodes, idents) if idx in ask_all or idx in ask_some else [((node, npath), ident)]:
             try:
                 p = node.find_output_path_for_type(other)
             except Exception as e:  # pylint: disable=broad-except
@@ -482,6 +527,7 @@ def model_case(
     setorder: typing.Optional[str],
     root_name: str,
     ex: typing.Optional[Expect] = None,
+    light: bool = False,
 ) -> typing.Tuple[typing.List[typing.Tuple[str, str]], typing.Optional[tuple], Expect]:
     from nunavut import build_namespace_tree
 
@@ -495,7 +541,7 @@ def model_case(
         with SetOrder(setorder):
             root_node = build_namespace_tree(list(types), rdir, out, lctx)
             vio, canon = check_model(
-                root_node, types, ex, out, sandbox, (sandbox / "dsdl" / root_name).resolve(), root_name
+                root_node, types, ex, out, sandbox, (sandbox / "dsdl" / root_name).resolve(), root_name, light
             )
     except HarnessError:
         raise
@@ -730,21 +776,29 @@ def disk_case(
     ext: typing.Optional[str],
     stem: typing.Optional[str],
     spelling: str,
+    large: typing.Optional[typing.Sequence[typing.Any]] = None,
 ) -> typing.Tuple[typing.List[typing.Tuple[str, str]], Expect, int]:
-    """Runs nnvg (in-process) for root r, then for root s with r as look-up directory, inside `sandbox`."""
+    """Runs nnvg (in-process) for root r, then for root s with r as look-up directory, inside `sandbox`.
+    large: a shape of the far-end family instead of `names` (root r only, no second root)."""
     from nunavut import build_namespace_tree
 
     from vf import gen
 
     shutil.rmtree(sandbox, ignore_errors=True)
     sandbox.mkdir(parents=True)
-    write_dsdl(sandbox, names)
+    if large is not None:
+        specs = large_specs(large)
+        names = tuple(tname(s) for s in specs)
+        write_specs(sandbox, specs)
+    else:
+        specs = [BY_NAME[n] for n in names]
+        write_dsdl(sandbox, names)
     os.chdir(sandbox)
     base_lang, strop = split_target(lang)
     if not strop:
         (sandbox / NOSTROP_YAML).write_text(f"nunavut.lang.{base_lang}:\n  enable_stropping: false\n", encoding="utf-8")
     lctx = lctx_for(lang, ext, stem)
-    ex = Expect([BY_NAME[n] for n in names], lctx, lang, ext)
+    ex = Expect(specs, lctx, lang, ext)
     out = out_spelling(spelling, sandbox)
     out_abs = pathlib.Path(os.path.normpath(os.path.join(str(sandbox), out)))
     out_rel = str(out_abs.relative_to(sandbox))
@@ -822,7 +876,10 @@ def disk_case(
         except Exception:  # pylint: disable=broad-except
             return None  # the model oracle reports this; here the namespace files are simply not excused
 
-    r_parsed, s_parsed, rejected = parse_roots(sandbox, names)
+    if large is not None:
+        r_parsed, s_parsed, rejected = parse_large(sandbox, names), {}, None
+    else:
+        r_parsed, s_parsed, rejected = parse_roots(sandbox, names)
     if rejected is not None:
         return [], ex, 0
     snap0 = gen.snapshot(sandbox)
@@ -836,7 +893,7 @@ def disk_case(
     ]
     model_r = model_files(r_parsed, list(names), ROOT)  # (for the empty set: the file of the nameless root)
     classify(snap0, snap1, required, model_r, f"root {ROOT}")
-    if not names:
+    if not names or large is not None:
         return vio, ex, runs
 
     # second root into the same output directory
@@ -944,6 +1001,240 @@ DISK_CORE_PAIRS = [
 ]
 
 
+# ------------------------------------------------------------------------------------- the far end of legal sizes
+LARGE_POWERS = [32, 64, 128, 256, 512]
+LARGE_SERIES = [p + d for p in LARGE_POWERS for d in (-1, 0, 1)]
+MAX_FULL_NAME = 255  # Cyphal Specification / PyDSDL: longest legal full name of a type (written down, probed in run())
+# namespaces of the longest legal chain r.a.a...a that still holds a type T: len("r") + 2 * (n - 1) + len(".T") <= 255
+CHAIN_MAX_NS = 1 + (MAX_FULL_NAME - len(ROOT) - len(".T")) // len(".a")
+CHAIN_SERIES = sorted({n for n in LARGE_SERIES if n <= CHAIN_MAX_NS} | {CHAIN_MAX_NS - 2, CHAIN_MAX_NS - 1, CHAIN_MAX_NS})
+# versions of one type in a fixed order: every major with minor 0, then minor 1, then minor 2 (0.0 is not a version)
+VERSIONS = [(major, minor) for minor in range(3) for major in range(256) if major + minor > 0]
+GRIDS = [(4, 7), (8, 7), (8, 15), (16, 15), (16, 31)]  # 1 + a + a*b = 33, 65, 129, 257, 513 namespaces
+LARGE_SPELLING = {"c": "rel", "cpp": "abs_slash", "py": "rel_dot_nested", "html": "abs"}
+Shape = typing.Tuple[typing.Any, ...]
+
+
+def large_shapes() -> typing.List[Shape]:
+    shapes: typing.List[Shape] = []
+    for n in LARGE_SERIES:
+        shapes += [("wide", n), ("types", n), ("versions", n)]
+    for n in CHAIN_SERIES:
+        shapes += [("chain", n, "bottom"), ("chain", n, "every")]
+    shapes += [("chainwide", w) for w in (1, 2, 3)]
+    for a, b in GRIDS:
+        shapes += [("grid", a, b, "gaps"), ("grid", a, b, "full")]
+    return shapes
+
+
+# shapes the quick tier always generates to disk, per language (thorough: every shape x c, the wide series x all)
+LARGE_DISK_CORE: typing.List[typing.Tuple[Shape, str]] = [
+    (("wide", 33), "c"),
+    (("wide", 128), "c"),  # 129 namespaces
+    (("wide", 129), "c"),
+    (("wide", 128), "py"),
+    (("types", 129), "c"),
+    (("versions", 129), "c"),
+    (("chain", CHAIN_MAX_NS, "bottom"), "c"),
+    (("chainwide", 2), "c"),
+    (("grid", 8, 15, "gaps"), "c"),
+]
+
+
+def large_specs(shape: typing.Sequence[typing.Any]) -> typing.List[TypeSpec]:
+    kind = shape[0]
+    if kind == "wide":
+        return [((ROOT, f"s{i:03d}"), "T", 1, 0) for i in range(int(shape[1]))]
+    if kind == "types":
+        return [((ROOT, "x"), f"T{i:03d}", 1, 0) for i in range(int(shape[1]))]
+    if kind == "versions":
+        if int(shape[1]) > len(VERSIONS):
+            raise HarnessError(f"no {shape[1]} versions of one type")
+        return [((ROOT, "x"), "A", major, minor) for major, minor in VERSIONS[: int(shape[1])]]
+    if kind == "chain":
+        full = tuple([ROOT] + ["a"] * (int(shape[1]) - 1))
+        if shape[2] == "bottom":
+            return [(full, "T", 1, 0)]
+        return [(full[:i], "T", 1, 0) for i in range(1, len(full) + 1)]
+    if kind == "chainwide":
+        chain = tuple([ROOT] + ["a"] * (CHAIN_MAX_NS - 1))
+        return [(chain, "T", 1, 0)] + [((ROOT, f"s{i:03d}"), "T", 1, 0) for i in range(int(shape[1]))]
+    if kind == "grid":
+        out: typing.List[TypeSpec] = []
+        for i in range(int(shape[1])):
+            if shape[3] == "full":
+                out.append(((ROOT, f"s{i:02d}"), "T", 1, 0))
+            for j in range(int(shape[2])):
+                out.append(((ROOT, f"s{i:02d}", f"t{j:02d}"), "T", 1, 0))
+        return out
+    raise HarnessError(f"unknown large shape {shape}")
+
+
+def write_specs(sandbox: pathlib.Path, specs: typing.Sequence[TypeSpec]) -> None:
+    made: typing.Set[tuple] = set()
+    for ns, short, major, minor in specs:
+        d = sandbox / "dsdl" / pathlib.Path(*ns)
+        if tuple(ns) not in made:
+            d.mkdir(parents=True, exist_ok=True)
+            made.add(tuple(ns))
+        (d / f"{short}.{major}.{minor}.dsdl").write_text("@sealed\n", encoding="utf-8")
+
+
+def parse_large(sandbox: pathlib.Path, names: typing.Sequence[str]) -> dict:
+    """Every shape of the family is legal DSDL: a rejection by PyDSDL is a harness problem, not an outcome."""
+    from vf import gen
+
+    try:
+        types = gen.read_types(sandbox / "dsdl" / ROOT)
+    except Exception as e:  # pylint: disable=broad-except
+        raise HarnessError(f"glue: PyDSDL rejects a tree of the large family: {type(e).__name__}: {str(e)[:300]}") from e
+    parsed = {tid_of(t): t for t in types}
+    if len(parsed) != len(types) or set(parsed) != set(names):
+        raise HarnessError(f"glue: PyDSDL returned {len(types)} types for a large tree of {len(names)}")
+    return parsed
+
+
+def large_sig(lang: str, ex: Expect, kind: str, shape: typing.Sequence[typing.Any]) -> dict:
+    return dict(sig_for(lang, ex.folded_ns, kind), scale=str(shape[0]))
+
+
+def large_model_runs(
+    sandbox: pathlib.Path, shape: typing.Sequence[typing.Any], lang: str, orders: typing.Sequence[str]
+) -> typing.Tuple[typing.List[typing.Tuple[str, str, str]], Expect, typing.Optional[tuple], int]:
+    """Writes + parses the tree and builds the model once per order ('fwd' = ascending type list, 'rev' = reversed).
+    Returns ((kind, text, order) per violation, the expectation, the canonical model relative to the output, runs)."""
+    shutil.rmtree(sandbox, ignore_errors=True)
+    sandbox.mkdir(parents=True)
+    specs = large_specs(shape)
+    names = [tname(s) for s in specs]
+    write_specs(sandbox, specs)
+    os.chdir(sandbox)
+    parsed = parse_large(sandbox, names)
+    return _large_model_on(sandbox, specs, parsed, shape, lang, orders)
+
+
+def _large_model_on(
+    sandbox: pathlib.Path,
+    specs: typing.Sequence[TypeSpec],
+    parsed: dict,
+    shape: typing.Sequence[typing.Any],
+    lang: str,
+    orders: typing.Sequence[str],
+) -> typing.Tuple[typing.List[typing.Tuple[str, str, str]], Expect, typing.Optional[tuple], int]:
+    names = [tname(s) for s in specs]
+    lctx = lctx_for(lang, None, None)
+    ex = Expect(specs, lctx, lang, None)
+    spelling = LARGE_SPELLING[lang]
+    out: typing.List[typing.Tuple[str, str, str]] = []
+    first: typing.Optional[tuple] = None
+    runs = 0
+    for oname in orders:
+        order = names if oname == "fwd" else names[::-1]
+        vio, canon, _ = model_case(sandbox, parsed, order, lang, None, None, spelling, None, ROOT, ex, light=True)
+        runs += 1
+        out += [(k, w, oname) for k, w in vio]
+        if canon is not None:
+            if first is None:
+                first = canon
+            elif canon != first:
+                out.append(("order_dependence", f"the model built from the reversed type list differs ({shape})", oname))
+    rel = rel_canon(first, norm(sandbox, out_spelling(spelling, sandbox))) if first is not None else None
+    return out, ex, rel, runs
+
+
+def _large_job(job: typing.Tuple[str, Shape, typing.Any, str]) -> dict:
+    """('model', shape, [(lang, [orders])], scratch) or ('disk', shape, lang, scratch)"""
+    mode, shape, plan, scratch = job
+    bag = Bag()
+    res: dict = {"bag": bag, "mode": mode, "evals": 0, "nontrivial": 0, "outcomes": set(), "runs": 0, "shape": shape}
+    sandbox = pathlib.Path(scratch) / "L" / f"{stable_hash(repr((mode, shape, plan))):016x}"
+    try:
+        if mode == "disk":
+            lang = plan
+            spelling = LARGE_SPELLING[lang]
+            vio, ex, runs = disk_case(sandbox, (), lang, None, None, spelling, large=shape)
+            case = {"mode": "large_disk", "shape": list(shape), "lang": lang, "spelling": spelling}
+            for kind, what in vio:
+                bag.add(large_sig(lang, ex, kind, shape), case, f"[{lang}, {shape}] {what}")
+            res.update(runs=runs, nontrivial=int(runs > 0), namespaces=len(ex.closure), types=len(ex.types))
+            return res
+        shutil.rmtree(sandbox, ignore_errors=True)
+        sandbox.mkdir(parents=True)
+        specs = large_specs(shape)
+        write_specs(sandbox, specs)
+        os.chdir(sandbox)
+        parsed = parse_large(sandbox, [tname(s) for s in specs])
+        res.update(namespaces=0, types=len(specs), longest_name=max(len(t.full_name) for t in parsed.values()))
+        for lang, orders in plan:
+            vio, ex, rel, runs = _large_model_on(sandbox, specs, parsed, shape, lang, orders)
+            res["namespaces"] = len(ex.closure)
+            res["evals"] += runs
+            res["nontrivial"] += 1
+            for kind, what, oname in vio:
+                case = {"mode": "large", "shape": list(shape), "lang": lang, "order": oname}
+                bag.add(large_sig(lang, ex, kind, shape), case, f"[{lang}, {shape}, {oname}] {what}")
+            if rel is not None:
+                res["outcomes"].add(stable_hash(repr((lang, rel))))
+        return res
+    finally:
+        os.chdir("/")
+        shutil.rmtree(sandbox, ignore_errors=True)
+
+
+def large_jobs(ctx: Ctx) -> typing.List[tuple]:
+    jobs: typing.List[tuple] = []
+    shapes = large_shapes()
+    for shape in shapes:
+        if (
+            not ctx.thorough
+            and shape[0] in ("types", "versions")
+            and shape[1] >= LARGE_POWERS[-1] - 1
+            and shape[1] != LARGE_POWERS[-1] - 1 + ctx.seed % 3
+        ):
+            # PyDSDL's reading of one namespace is quadratic in its size: of the three biggest trees of these two
+            # families (two namespaces each) quick takes the seed-selected one
+            continue
+        plan = [("c", ["fwd", "rev"])]
+        for lang in LANGS[1:]:
+            if ctx.thorough:
+                plan.append((lang, ["fwd", "rev"]))
+            elif ctx.in_slice(f"large:{shape}|{lang}", 8):
+                plan.append((lang, ["fwd"]))
+        jobs.append(("model", shape, plan, str(ctx.scratch)))
+    disk = list(LARGE_DISK_CORE)
+    if ctx.thorough:
+        disk += [(s, "c") for s in shapes] + [(s, lang) for s in shapes if s[0] == "wide" for lang in LANGS[1:]]
+    for shape, lang in dict.fromkeys(disk):
+        if shape not in shapes:
+            raise HarnessError(f"disk core shape {shape} is not a shape of the large family")
+        jobs.append(("disk", shape, lang, str(ctx.scratch)))
+    # biggest first: better balance of the pool
+    return sorted(jobs, key=lambda j: (-len(large_specs(j[1])) * (len(j[2]) if j[0] == "model" else 3), repr(j)))
+
+
+def probe_longest_name(ctx: Ctx) -> None:
+    """The chain family claims to end at the longest legal full name: one more namespace must be illegal DSDL."""
+    from vf import gen
+
+    sandbox = ctx.scratch / "longest"
+    shutil.rmtree(sandbox, ignore_errors=True)
+    specs = large_specs(("chain", CHAIN_MAX_NS + 1, "bottom"))
+    if len(tname(specs[0])) - len(".1.0") <= MAX_FULL_NAME:
+        raise HarnessError("glue: the chain one beyond the longest one does not exceed the name limit")
+    write_specs(sandbox, specs)
+    try:
+        gen.read_types(sandbox / "dsdl" / ROOT)
+    except Exception:  # pylint: disable=broad-except
+        ctx.stats["chain_beyond_longest_name_rejected_by_pydsdl"] = True
+        return
+    finally:
+        shutil.rmtree(sandbox, ignore_errors=True)
+    raise HarnessError(
+        f"bound text is wrong: PyDSDL accepts a full name longer than {MAX_FULL_NAME} characters, the chain family "
+        "does not reach the far end of the legal depths"
+    )
+
+
 # ------------------------------------------------------------------------------------------------ entry points
 def run(ctx: Ctx) -> int:
     subsets = all_subsets()
@@ -1002,9 +1293,46 @@ def run(ctx: Ctx) -> int:
         }
     )
 
+    # the far end of the legal sizes
+    probe_longest_name(ctx)
+    ljobs = large_jobs(ctx)
+    lresults = ctx.pool_map(_large_job, ljobs)
+    lmodel = [r for r in lresults if r["mode"] == "model"]
+    ldisk = [r for r in lresults if r["mode"] == "disk"]
+    for r in sorted(lresults, key=lambda r_: (r_["types"], r_["namespaces"], repr(r_["shape"]))):
+        ctx.bag.merge(r["bag"])  # smallest tree first: among equally long cases the bag keeps the first
+        outcomes |= r["outcomes"]
+    levals = sum(r["evals"] for r in lmodel)
+    ldruns = sum(r["runs"] for r in ldisk)
+    lnontrivial = sum(r["nontrivial"] for r in lresults)
+    lmax_ns = max(r["namespaces"] for r in lmodel)
+    lmax_types = max(r["types"] for r in lmodel)
+    llongest = max(r["longest_name"] for r in lmodel)
+    ldisk_max_ns = max(r["namespaces"] for r in ldisk)
+    if lmax_ns < LARGE_SERIES[-1] + 1 or lmax_types < LARGE_SERIES[-1]:
+        raise HarnessError(f"vacuous exploration: the largest tree has {lmax_ns} namespaces / {lmax_types} types")
+    if llongest != MAX_FULL_NAME:
+        raise HarnessError(f"vacuous exploration: the longest full name explored has {llongest} characters")
+    if ldisk_max_ns < LARGE_POWERS[2] + 2 or ldruns < len(ldisk):
+        raise HarnessError("vacuous exploration: the disk oracle did not generate a large tree")
+    lbig = max(lmodel, key=lambda r: (r["namespaces"], r["types"]))
+    ctx.samples.append(
+        {"large_shape": list(lbig["shape"]), "namespaces": lbig["namespaces"], "types": lbig["types"], "lang": "c",
+         "orders": ["ascending", "reversed"]}
+    )
+
     confirm(ctx)
 
     ctx.stats.update(
+        large_shapes=len(lmodel),
+        large_model_cells=lnontrivial - len(ldisk),
+        large_model_builds=levals,
+        large_disk_cases=len(ldisk),
+        large_disk_generator_runs=ldruns,
+        large_max_namespaces_in_one_tree=lmax_ns,
+        large_max_types_in_one_tree=lmax_types,
+        large_longest_full_name=llongest,
+        large_disk_max_namespaces_in_one_tree=ldisk_max_ns,
         subsets_total=len(subsets),
         subsets_explored=len(chosen),
         four_sets_total=len(big),
@@ -1042,10 +1370,10 @@ def run(ctx: Ctx) -> int:
 
     exhaustive = bool(ctx.thorough)
     cov = {
-        "evaluations": evals + druns,
-        "model_evaluations": evals,
-        "disk_generator_runs": druns,
-        "distinct_nontrivial": nontrivial + dnontrivial,
+        "evaluations": evals + druns + levals + ldruns,
+        "model_evaluations": evals + levals,
+        "disk_generator_runs": druns + ldruns,
+        "distinct_nontrivial": nontrivial + dnontrivial + lnontrivial,
         "distinct_outcomes": len(outcomes),
         "rule": "one evaluation = one real build_namespace_tree run (one type set x language x extension x stem x "
         "output spelling x order of the type list [x forced set iteration order]) checked against the oracle, or one "
@@ -1060,7 +1388,14 @@ def run(ctx: Ctx) -> int:
         f"{int(feat.get('cells', 0))} of these cells (first and reversed order in the others); disk: {len(disk_sel)}/{len(disk_sets)} "
         f"subsets of <= {MAX_DISK_SET} types x {len(LANGS)} languages x {len(DISK_CONFIGS)} configurations, two runs each; "
         f"additionally c and cpp with the enable_stropping:false override: same sets x default extension/stem x "
-        f"{len(NOSTROP_SPELLINGS)} spellings x every order (model), x {len(NOSTROP_DISK_CONFIGS)} configurations (disk)",
+        f"{len(NOSTROP_SPELLINGS)} spellings x every order (model), x {len(NOSTROP_DISK_CONFIGS)} configurations (disk); "
+        f"far end of the legal sizes: {len(lmodel)} trees (N = {LARGE_SERIES[0]}..{LARGE_SERIES[-1]} around every power "
+        f"of two: N sibling namespaces, N types in one namespace, N versions of one type; chains of "
+        f"{CHAIN_SERIES[0]}..{CHAIN_MAX_NS} namespaces = the longest legal full name, the longest chain + 1..3 siblings, "
+        f"{len(GRIDS)} two-level grids with and without empty first level; up to {lmax_ns} namespaces / {lmax_types} "
+        f"types in one tree; of the {len(large_shapes())} trees of the family) x c with ascending and reversed type list, {lnontrivial - len(ldisk) - len(lmodel)}/"
+        f"{len(lmodel) * (len(LANGS) - 1)} of the (tree, other language) cells; {len(ldisk)} of them generated to disk "
+        f"(up to {ldisk_max_ns} namespaces)",
         "exhaustive": exhaustive,
     }
     return ctx.finish(
@@ -1076,6 +1411,9 @@ def run(ctx: Ctx) -> int:
             "hash seed fixed to 0; the iteration order of the sets inside nunavut._namespace is additionally forced "
             "ascending/descending on one configuration per type set",
             "disk oracle runs as root with default --file-mode; permissions are C12's subject",
+        "large trees: path lookup is asked for every type and namespace at the root, for every type at its own "
+        "namespace, for three types at three more nodes (not for everything at every node); default extension and stem, one output spelling per language, no "
+        "second root, no forced set order",
             "with enable_stropping:false (c, cpp only; the py templates fail on any type with a field under that "
             "override) every path component may be the unstropped or the stropped name; demanded are one file per type, "
             "model == disk, and references (#include of the second root, include list) == the generated location",
@@ -1094,8 +1432,20 @@ def confirm(ctx: Ctx) -> None:
 
 
 def _replay_case(ctx: Ctx, case: dict) -> typing.List[typing.Tuple[str, str]]:
-    names = list(case["types"])
     sandbox = ctx.scratch / "replay"
+    if case["mode"] in ("large", "large_disk"):
+        shape = tuple(case["shape"])
+        try:
+            if case["mode"] == "large_disk":
+                vio, _ex, _runs = disk_case(sandbox, (), case["lang"], None, None, case["spelling"], large=shape)
+                return vio
+            # the reference order first: an order dependence is a difference to the ascending list
+            orders = ["fwd"] if case.get("order", "fwd") == "fwd" else ["fwd", "rev"]
+            got, _ex, _rel, _runs = large_model_runs(sandbox, shape, case["lang"], orders)
+            return [(k, w) for k, w, o in got if o == case.get("order", "fwd")]
+        finally:
+            os.chdir("/")
+    names = list(case["types"])
     lang, ext, stem = case["lang"], case.get("ext"), case.get("stem")
     spelling = case.get("spelling", "rel")
     if case["mode"] == "disk":
